@@ -10,6 +10,10 @@ EXPECTED_THEOREMS = ['Py65.Props.C13.cycles_nmos6502', 'Py65.Props.C13.cycles_or
                      'Py65.Props.C13h.cycles_since_reset', 'Py65.Props.C13h.cycles_history_65c02_exact',
                      'Py65.Props.C13h.bra_step_cycles', 'Py65.Props.C13h.cycles_monotone_history_65c02']
 NAMESPACES = ['Py65.Props.C13', 'Py65.Props.C13h']
+# library helpers (CPython behaviour modelled in lean/Py65/Model/*Rt*.lean ...) that the generated code of these
+# modules calls, derived by scanning the Lean sources (harness/rtscan.py); validated against CPython on every run
+import rtcheck  # noqa: E402
+RT_HELPERS = rtcheck.helpers_for(LEAN_MODULES)
 TRUSTED = ['Spec.Cpu / Spec.Cycles (hand-written programming model and documented cycle table, the oracle)', 'translator harness/py2lean.py, validated on every run by exact-state comparison with the real device', 'Py.land/lor/lxor definitions (characterised by theorems, differentially tested)']
 ASSUMPTIONS = ['the per-opcode assembly (delta cycles = Spec.stepCycles) is proved for every declared opcode of every device (C13b: cycles_nmos6502, cycles_org16, cycles_cmos_partial) except 65C02 BRA', 'KNOWN FINDING 65C02 BRA: excluded in cycles_table_65c02_partial, witnessed by bra_deviation',
                'C13h (histories): for every device and every reset-free list of step()/irq()/nmi() calls folded over the GENERATED device operations, started in a well-formed state (6502/65Org16: not waiting), the counter ends at start + documented cycles of every call (cycles_history); well-formedness along the run is NOT assumed, it is the invariant Hist.Inv proved preserved by every call at every opcode byte 0..255 (declared, undeclared, binary and decimal mode; Proofs/HistStep.lean); quantified per call (CycOK): 65C02 non-waiting steps do not execute BRA $80 (C13b exclusion; cycles_history_65c02_exact gives the exact count documented - #BRA for EVERY 65C02 history), 65Org16 opcode cells hold a byte 0..255 (above: IndexError, outside the quantifier); 6502: no side condition (cycles_history_6502); cycles_since_reset: with resets in the list the counter is the documented sum since the last reset, the earlier calls being inside C05 quantifiers (reset start address an address)']
